@@ -31,10 +31,11 @@ Definition okvars (v : list str) : Prop := length v <= length vals /\ incl v var
 Lemma okvars_len v : okvars v -> length v <= length vals.
 Proof. intros [H _]. exact H. Qed.
 
-Local Notation dden := (dden C vals).
-Local Notation nden := (nden C vals).
-Local Notation dwf := (dwf flagged vals okvars).
-Local Notation nwf := (nwf flagged vals okvars).
+Definition okvar (i : nat) (_ : str) : Prop := i < length vals.
+Local Notation dden := (dden C (vlook C vals)).
+Local Notation nden := (nden C (vlook C vals)).
+Local Notation dwf := (dwf flagged okvar okvars).
+Local Notation nwf := (nwf flagged okvar okvars).
 Local Notation ref_atom := (ref_atom C tb vars vals).
 Local Notation ref_rest := (ref_rest C tb vars vals).
 Local Notation ref_chain := (ref_chain C tb vars vals).
@@ -92,7 +93,7 @@ Proof.
       { intros x Hx. apply Hin in Hx. apply in_flat_map in Hx. destruct Hx as (n & Hn' & Hx). rewrite Forall_forall in Hn. exact (proj2 (Hn n Hn') x Hx). }
       split; [|exact Hincl]. rewrite Hlen. apply NoDup_incl_length; assumption.
     - apply Forall_forall. intros n Hn'. rewrite Forall_forall in Hn. exact (proj1 (Hn n Hn')). }
-  destruct (dcompile_ok C R R_refl R_sym R_trans R_bin R_un flagged flagged_assoc vals okvars _ Hwf) as (e & He & Hwe & Hr).
+  destruct (dcompile_ok C R R_refl R_sym R_trans R_bin R_un flagged flagged_assoc (vlook C vals) okvar okvars _ Hwf) as (e & He & Hwe & Hr).
   exists e. split; [|split; [exact Hwe|split]].
   - unfold new_deepex. destruct nodes as [|n nt]; [discriminate|]. rewrite Hl, Nat.eqb_refl. exact He.
   - rewrite dden_unfold in Hr. exact Hr.
